@@ -21,7 +21,7 @@ from vlib.common import KResult, Violation, Disagreement, Property
 # alphabet (the property's): letters, digits, separators, accents, CJK — lower-casing is 1:1 on it
 # ------------------------------------------------------------------------------------------------
 SEPS = " _-.()[]'&"
-LETTERS = 'abcdefghijklmnoprstuvwxyzABCDEGIKLMNORST'
+LETTERS = 'abcdefghijklmnopqrstuvwxyzABCDEFGHIJKLMNOPQRSTUVWXYZ'
 DIGITS = '0123456789'
 ACCENTS = 'éÉèÈêüÜñÑöÖçÇåÅøØ'
 CJK = '日本語音楽中文'
@@ -78,8 +78,35 @@ def _gen_name(rng: random.Random, nwords: int) -> str:
     return s or 'x'
 
 
-def _gen_tree(rng: random.Random):
-    """Returns (dirs, files): relative directory paths ('.' = root) and relative file paths."""
+EXT_SHAPES = ['digits', 'paren', 'bracket', 'underscore', 'letter', 'space-word', 'dash', 'dot']
+
+
+def _extend_name(rng: random.Random, name: str, shape: str | None = None) -> tuple[str, str]:
+    """A directory name that EXTENDS `name` as a string (`CD1` -> `CD10`, `CD1 (bonus)`, `Album [Deluxe]`, ...):
+    as a path component it is a different directory, as a string the other one is its prefix."""
+    shape = shape or rng.choice(EXT_SHAPES)
+    if shape == 'digits':
+        ext = rng.choice(['0', '1', '2', '10', '01'])
+    elif shape == 'paren':
+        ext = ' (' + rng.choice(['bonus', 'live', 'Live', '2', 'b', 'été']) + ')'
+    elif shape == 'bracket':
+        ext = ' [' + rng.choice(['Deluxe', 'flac', '2001', 'a', '日本']) + ']'
+    elif shape == 'underscore':
+        ext = '_' + rng.choice(['z', 'b', '2', 'live', ''])
+    elif shape == 'letter':
+        ext = rng.choice('absxzé楽S')
+    elif shape == 'space-word':
+        ext = ' ' + rng.choice(['bonus', 'two', '2', 'live'])
+    elif shape == 'dash':
+        ext = rng.choice(['-', ' - ']) + rng.choice(['b', '2', 'Live'])
+    else:
+        ext = '.' + rng.choice(['1', 'bak', 'd'])
+    return shape, name + ext
+
+
+def _gen_tree(rng: random.Random, shapes: list | None = None):
+    """Returns (dirs, files): relative directory paths ('.' = root) and relative file paths. About a quarter of
+    the directories get a name that extends the name of a directory beside them (or of their own parent)."""
     dirs = ['.']
     ndirs = rng.choice([0, 1, 2, 3, 4, 5, 6])
     for _ in range(ndirs):
@@ -87,6 +114,11 @@ def _gen_tree(rng: random.Random):
         if parent.count('/') >= 3:
             parent = '.'
         name = _gen_name(rng, rng.choice([1, 1, 2]))
+        sibs = [d for d in dirs if d != '.' and (os.path.dirname(d) or '.') == parent]
+        if sibs and rng.random() < 0.3:
+            shape, name = _extend_name(rng, os.path.basename(rng.choice(sibs)))
+            if shapes is not None:
+                shapes.append('tree:' + shape)
         d = name if parent == '.' else parent + '/' + name
         if d not in dirs and name not in ('.', '..'):
             dirs.append(d)
@@ -244,13 +276,97 @@ def _gen_chain_case(rng: random.Random) -> dict:
         ops.append(['query', _gen_query(rng, files)])
     if rng.random() < 0.5:
         ops += [['add', victim], ['stats'], ['query', _gen_query(rng, files)]]
-    return {'cap': rng.choice([1, 2, 100]), 'ops': ops}
+    return {'cap': rng.choice([1, 2, 100]), 'ops': ops, 'meta': {'scenario': 'chain'}}
+
+
+def _gen_sibling_case(rng: random.Random) -> dict:
+    """A nested shared directory (`P/CD1`) beside directories whose NAMES extend its name (`P/CD10`, `P/CD1 (bonus)`,
+    `P/Album [Deluxe]`, ...) or whose name it extends (shared `P/CD10` beside `P/CD1`), with files directly in them and
+    one level deeper; the parent is (re)scanned while the child is shared. Nested-ness is a matter of path COMPONENTS:
+    the extended siblings belong to the parent."""
+    base = rng.choice(['CD1', 'CD1', 'Album', 'Disc 1', 'Live', _gen_name(rng, 1), _gen_name(rng, 1), _gen_name(rng, 2)])
+    parent = rng.choice(['.', '.', 'm', _gen_name(rng, 1), 'm/' + _gen_name(rng, 1)])
+    shapes = []
+    sibs = []
+    for _ in range(rng.choice([1, 2, 2, 3])):
+        shape, nm = _extend_name(rng, base)
+        if nm not in sibs and nm != base:
+            sibs.append(nm)
+            shapes.append(shape)
+    direction = rng.choice(['child-is-prefix', 'child-is-prefix', 'child-is-prefix', 'child-is-extension'])
+    if direction == 'child-is-prefix':
+        child_name, others = base, sibs
+    else:
+        child_name, others = sibs[0], [base] + sibs[1:]
+
+    def j(*parts):
+        return '/'.join(x for x in parts if x != '.')
+
+    child = j(parent, child_name)
+    other_dirs = [j(parent, o) for o in others]
+    files: list[str] = []
+
+    def put(d, n=1):
+        for _ in range(n):
+            f = j(d, _gen_name(rng, rng.choice([1, 2, 2])) + '.' + rng.choice(EXTS))
+            if f not in files:
+                files.append(f)
+
+    put(parent, rng.choice([0, 1]))
+    put(child, rng.choice([1, 2]))
+    if rng.random() < 0.5:
+        put(j(child, _gen_name(rng, 1)), 1)
+    sib_files_from = len(files)
+    for o in other_dirs:
+        put(o, rng.choice([1, 1, 2]))
+        if rng.random() < 0.6:
+            # one level deeper, sometimes under a name that again extends the child's name
+            inner = _extend_name(rng, child_name)[1] if rng.random() < 0.3 else _gen_name(rng, 1)
+            put(j(o, inner), 1)
+    if rng.random() < 0.3:
+        # the same pair of names one level deeper, inside a sibling
+        put(j(other_dirs[0], child_name), 1)
+    sib_files = files[sib_files_from:]
+    ops: list = [['touch', f] for f in files]
+
+    def obs(k=2):
+        ops.append(['stats'])
+        for _ in range(k):
+            ops.append(['query', _gen_query(rng, sib_files if rng.random() < 0.7 else files)])
+
+    order = rng.choice(['parent-first', 'parent-first', 'child-first', 'both-then-scanall'])
+    if order == 'parent-first':
+        ops += [['add', parent], ['scan', parent]]
+        obs(1)
+        ops += [['add', child]]
+        if rng.random() < 0.6:
+            ops += [['scan', child]]
+        obs(1)
+        ops += [['scan', parent] if rng.random() < 0.7 else ['scanall']]
+    elif order == 'child-first':
+        ops += [['add', child], ['scan', child], ['add', parent], ['scan', parent] if rng.random() < 0.6 else ['scanall']]
+    else:
+        ops += [['add', parent], ['add', child], ['scanall']]
+    obs(3)
+    if rng.random() < 0.5:
+        # a sibling becomes a nested share too
+        ops += [['add', other_dirs[0]], ['scan', parent]]
+        obs(2)
+    if rng.random() < 0.5:
+        ops += [['remove', child, rng.choice(['str', 'obj'])], ['scan', parent]]
+        obs(2)
+    return {'cap': rng.choice([1, 3, 100, 100]), 'ops': ops,
+            'meta': {'scenario': 'sibling', 'shapes': shapes, 'direction': direction}}
 
 
 def _gen_case(rng: random.Random) -> dict:
-    if rng.random() < 0.15:
+    r0 = rng.random()
+    if r0 < 0.13:
         return _gen_chain_case(rng)
-    dirs, files = _gen_tree(rng)
+    if r0 < 0.27:
+        return _gen_sibling_case(rng)
+    tree_shapes: list = []
+    dirs, files = _gen_tree(rng, tree_shapes)
     ops: list = [['touch', f] for f in files]
     disk = list(files)
     shared: list[str] = []
@@ -322,7 +438,10 @@ def _gen_case(rng: random.Random) -> dict:
         ops.append(['scanall'])
         ops.append(['stats'])
     queries(rng.choice([3, 5, 8]))
-    return {'cap': cap, 'ops': ops}
+    case = {'cap': cap, 'ops': ops}
+    if tree_shapes:
+        case['meta'] = {'scenario': 'general', 'shapes': tree_shapes}
+    return case
 
 
 # ------------------------------------------------------------------------------------------------
@@ -777,7 +896,11 @@ W_VANISHED = {'cap': 100, 'ops': [['touch', 'n/other d.mp3'], ['touch', 'n/keep.
 W_MOVED = {'cap': 100, 'ops': [['touch', 'm/rock/deep c.mp3'], ['touch', 'm/top.mp3'], ['add', 'm'], ['scan', 'm'],
                                ['add', 'm/rock'], ['stats'], ['query', 'rock'], ['query', 'deep'], ['scan', 'm/rock'],
                                ['remove', 'm/rock', 'obj'], ['stats'], ['query', 'rock'], ['query', 'deep']]}
-WITNESSES = [W_WILDCARD, W_REMOVED, W_VANISHED, W_MOVED]
+W_SIBLING = {'cap': 100, 'ops': [['touch', 'm/CD1/one.mp3'], ['touch', 'm/CD10/ten.mp3'],
+                                 ['touch', 'm/CD1 (bonus)/x/live.mp3'], ['touch', 'm/CD/zero.mp3'],
+                                 ['add', 'm'], ['add', 'm/CD1'], ['scanall'], ['stats'],
+                                 ['query', 'ten'], ['query', 'bonus live'], ['query', 'mp3']]}
+WITNESSES = [W_WILDCARD, W_REMOVED, W_VANISHED, W_MOVED, W_SIBLING]
 
 
 class C07(Property):
@@ -789,7 +912,7 @@ class C07(Property):
             'histories of 1..8 add/remove/update/scan/scan-all operations (nested shared directories, unknown '
             'paths, stale handles) interleaved with files appearing / changing / vanishing; 1..4-term queries built '
             'from the words present (whole, substring, shared suffix with *, slices spanning punctuation, -exclusions, '
-            'absent words, junk terms), max_results in 1..100; all from VERIF_SEED. A case is non-trivial when its '
+            'absent words, junk terms), max_results in 1..100; ~13 % chains of 3-4 nested shares, ~14 % nested shares beside directories whose names extend the shared name as a string (CD1 / CD10 / CD1 (bonus) / Album [Deluxe], both directions, same level and one level deeper; such names also appear in ~30 % of the general trees); all from VERIF_SEED. A case is non-trivial when its '
             'history has >= 2 share operations and some query returned a non-empty proper subset of the indexed '
             'files; distinct = distinct canonical case')
     assumptions = [
@@ -837,6 +960,12 @@ class C07(Property):
             io = impl[i]
             nshare = sum(1 for op in c['ops'] if op[0] in ('add', 'remove', 'update', 'scan', 'scanall'))
             res.count('share-ops', nshare)
+            meta = c.get('meta') or {}
+            res.count('scenario:' + meta.get('scenario', 'general'))
+            for sh in meta.get('shapes', []):
+                res.count('sibling-name:' + sh)
+            if meta.get('direction'):
+                res.count('sibling-direction:' + meta['direction'])
             for op in c['ops']:
                 res.count('op:' + op[0])
                 if op[0] == 'query':
